@@ -43,7 +43,7 @@ var fctl = &fanoutCtl{next: make(chan struct{}), goOn: make(chan struct{}), ret:
 var fanoutBypass atomic.Int32
 
 // diagnostics (pacing only)
-var primeTimeouts, primeNanos, retries atomic.Int64
+var primeTimeouts, primeNanos, retries, idleFires, loopNanos, httpNanos, slowRuns atomic.Int64
 
 func installFanoutHooks() func() {
 	verifhook.SetGate(func(name string, kv ...any) {
@@ -153,6 +153,7 @@ func newFanoutDriver(t *testing.T) *fanoutDriver {
 func (d *fanoutDriver) close() {
 	d.t.Logf("fan-out driver: %d runs, %d retried, priming %.1fs, %d primer barrier timeouts", d.runNo, retries.Load(),
 		float64(primeNanos.Load())/1e9, primeTimeouts.Load())
+	d.t.Logf("fan-out driver: idle fires %d, loop %.1fs, http wait %.1fs, slow runs %d", idleFires.Load(), float64(loopNanos.Load())/1e9, float64(httpNanos.Load())/1e9, slowRuns.Load())
 	for _, e := range d.envs {
 		setPeerFunc(e.peers, nil)
 		e.close()
@@ -232,7 +233,11 @@ func (d *fanoutDriver) prime(e *env, down map[int]bool, runID string, nn int) {
 		select {
 		case <-all:
 		case <-time.After(2 * time.Second):
-			primeTimeouts.Add(1)
+			if primeTimeouts.Add(1) <= 3 {
+				mu.Lock()
+				d.t.Logf("primer barrier timeout: node %d own=%v down=%v arrived=%v", node, own, down, arrivedAt)
+				mu.Unlock()
+			}
 		case <-ctx.Done():
 		}
 		return status.Error(codes.Unavailable, "verif: primer")
@@ -387,6 +392,7 @@ func (d *fanoutDriver) runOnce(c vt.Case, ers []erSpec, outs []string, order []i
 	returned := false
 	deadline := time.After(60 * time.Second)
 	localsLeft := nlocal
+	tLoop := time.Now()
 	var idle <-chan time.Time // armed while the handler waits for a local failure we expect it to have queued
 loop:
 	for {
@@ -402,6 +408,7 @@ loop:
 			fctl.goOn <- struct{}{}
 		case <-idle:
 			// no local failure showed up (the handler did not queue one): go on with the peers
+			idleFires.Add(1)
 			idle = nil
 			localsLeft = 0
 			releaseNext()
@@ -415,6 +422,14 @@ loop:
 			d.t.Fatalf("fan-out driver: no progress (case %v order %v, released %d)", c, order, released)
 		}
 	}
+	loopNanos.Add(int64(time.Since(tLoop)))
+	if time.Since(tLoop) > 200*time.Millisecond {
+		slowRuns.Add(1)
+		if slowRuns.Load() <= 5 {
+			d.t.Logf("slow run %v: outs=%v order=%v released=%d localsLeft=%d", time.Since(tLoop), outs, order, released, localsLeft)
+		}
+	}
+	tHTTP := time.Now()
 	// what the peers had stored when fanoutForward decided
 	fr.mu.Lock()
 	storedAt := make([]int, nser)
@@ -434,6 +449,7 @@ loop:
 			d.t.Fatalf("fan-out driver: no HTTP response (case %v order %v)", c, order)
 		}
 	}
+	httpNanos.Add(int64(time.Since(tHTTP)))
 	for i := range ers {
 		release(i)
 	}
